@@ -4,11 +4,16 @@ package main
 //
 // For generated nestings (depth ≤ 4 quick, ≤ 6 thorough) of slice, array, tuple, map, record, set,
 // object, struct, union, xor, intersection, discriminated union and lazy over real primitive
-// members (including Nil(), Any(), optional / nilable / defaulted ones) the harness feeds: valid
+// members (including Nil(), Any(), optional / nilable / defaulted ones) AND members of every other kind
+// the member position type-checks (cx/members.go: transform, pipe, refine, overwrite, coerce, foreign
+// types offering only Parse / exactly core.ZodSchema / exactly core.ZodType[any], also wrapped around
+// generated composites) the harness feeds: valid
 // instances synthesised from the schema, every single-location corruption of them, wrong-shape
 // containers and nil-like values.  For each case it records EACH MEMBER'S OWN ParseAny answer on
 // every part of the input (cx.Build) and sends container description + that table to the Lean
-// driver, which evaluates the model of the container code and the composition law on it.
+// driver, which evaluates the model of the container code (over what the container can SEE of its
+// members: a member it has no entry point on is listed in the CFG token) and the composition law
+// (over the members' own answers) on it.
 // Observation: ok | err | panic:<class>.
 
 import (
@@ -65,9 +70,18 @@ func run(c hx.Config) error {
 		for i := range perKind {
 			depth := 1 + i%maxDepth
 			s := cx.GenKind(r, depth, kind)
+			for _, m := range s.Members {
+				o.Count("member:" + m.MemberKind())
+			}
 			for range 2 {
 				v := s.Valid(r)
 				emit(s, v, "valid")
+				// two or three corruptions side by side (sibling members / sibling elements / inside one element)
+				for j := range 2 {
+					if nv, _, ok := s.CorruptBelow(r, v, "", j, 2+r.Intn(2), depth); ok {
+						emit(s, nv, "corruptK")
+					}
+				}
 				// every single-location corruption of the valid instance (top level), plus deep ones
 				for _, ch := range s.Children(v) {
 					if bad, ok := ch.M.Invalid(r, ch.GoT); ok {
